@@ -853,7 +853,11 @@ class MappingDirector(SectionLineParser):
 
         from_, to_, *weight = line.split()
         if weight:
-            weight = int(weight[0])
+            # Weights are ints or floats.
+            try:
+                weight = int(weight[0])
+            except ValueError:
+                weight = float(weight[0])
         else:
             weight = 1
 
